@@ -15,7 +15,8 @@ RULE = ("dynamic-scope topologies: 1..5 schema resources (embedded or Loader doc
         "directed acyclic graph (diamonds), entered from 2..4 use sites whose names / positions are shuffled, so that the order in which "
         "documents are first met is independent of the evaluation paths; 12 % of all of these with the anchor renamed (ASCII names and, rarely, "
         "non-ASCII letters) and each reference fragment spelled plainly or with percent-escapes (#%6Eode, r2#nod%65, #n%C5%93ud): the decoded "
-        "name is what is looked up, statically and on the dynamic scope. Non-trivial: >= 2 resources; distinct = operation text")
+        "name is what is looked up, statically and on the dynamic scope; 8 %: two or three dynamic anchor names declared by random subsets of "
+        "the resources in per-document random order, a chain crossing from the root into Loader documents, one $dynamicRef per name. Non-trivial: >= 2 resources; distinct = operation text")
 TRUSTED = ["python oracle implementing the outermost-resource rule for the expected marks"]
 BASE = "http://x.test/dyn/root.json"
 
@@ -521,10 +522,89 @@ def override_case(rng):
             "meta": {"expect": expv, "resources": k + 2, "override": True}}
 
 
+def multi_name(rng):
+    """TWO OR THREE dynamic anchor names at once. Resources 0..k (root, embedded resources of the root, Loader documents) each declare a
+    random subset of the names — as $dynamicAnchor, $anchor or not at all — under $defs keys drawn at random, so the order in which a
+    document introduces the names (keyword / key traversal order) differs from document to document (root: N then P, a Loader
+    document: P then N). A chain of hops that crosses from the root document into Loader documents ends in a resource holding one
+    `$dynamicRef '#<name>'` per name, each under its own property. Expected per name by the specification's rule, independently of the
+    other names: the outermost resource on the path that declares THAT name dynamically, else the initial target."""
+    names = rng.sample(["N", "P", "Q", "node", "t"], rng.choice([2, 2, 3]))
+    k = rng.randint(1, 4)
+    order = list(range(1, k + 1))
+    rng.shuffle(order)
+    path = [0] + order[: rng.randint(1, k)]
+    f = path[-1]
+    cut = rng.randint(1, len(path) - 1) if rng.random() < 0.85 else len(path)     # path[cut:] are Loader documents (no D9 shape:
+    remote = set(path[cut:])                                                      # a loaded document never refers to an embedded resource)
+    kinds = []
+    for i in range(k + 1):
+        kd = {}
+        for nm in names:
+            kd[nm] = rng.choice(["dyn", "dyn", "none", "none", "anchor"]) if i != f else rng.choice(["dyn"] * 8 + ["anchor", "none"])
+        kinds.append(kd)
+    bodies = {}
+    for i in range(k + 1):
+        b = Obj()
+        if i > 0:
+            b.set("$id", res_name(i))
+        decl = [nm for nm in names if kinds[i][nm] != "none"]
+        rng.shuffle(decl)
+        keys = sorted(rng.sample(["a", "d", "m", "x", "z", "0", "B"], len(decl)))
+        if rng.random() < 0.5:
+            keys.reverse()           # (document order of the members; the package may walk them in its own order)
+        defs = []
+        for key, nm in zip(keys, decl):
+            defs.append((key, Obj([("$dynamicAnchor" if kinds[i][nm] == "dyn" else "$anchor", nm), ("const", "M%d%s" % (i, nm))])))
+        if defs:
+            b.set("$defs", Obj(defs))
+        bodies[i] = b
+    for a, bnext in zip(path, path[1:]):
+        hop = rng.random()
+        if hop < 0.5:
+            bodies[a].set("$ref", res_name(bnext))
+        elif hop < 0.8:
+            bodies[a].set("allOf", [Obj([("$ref", res_name(bnext))])])
+        else:
+            bodies[a].set("$dynamicRef", res_name(bnext))
+    use = list(names)
+    rng.shuffle(use)
+    bodies[f].set("properties", Obj([("p" + nm, Obj([("$dynamicRef", rng.choice(["#", "#", res_name(f) + "#"]) + nm)])) for nm in use]))
+    root = bodies[0]
+    defs = root.get("$defs") or Obj()
+    docs = []
+    for i in range(1, k + 1):
+        if i in remote:
+            docs.append(["http://x.test/dyn/" + res_name(i), bodies[i]])
+        else:
+            defs.kvs.append(("res%d" % i, bodies[i]))
+    if defs.kvs:
+        root.set("$defs", defs)
+    resolvable = all(kinds[f][nm] != "none" for nm in names)
+    exp = {}
+    for nm in names:
+        if kinds[f][nm] == "anchor":
+            exp[nm] = f
+        else:
+            exp[nm] = next((r for r in path if kinds[r][nm] == "dyn"), f)
+    insts, expv = [], []
+    for nm in names:
+        for i in path:
+            insts.append(Obj([("p" + nm, "M%d%s" % (i, nm))]))
+            expv.append(exp[nm] == i)
+    insts.append(Obj([("p" + nm, "M%d%s" % (exp[nm], nm)) for nm in names]))
+    expv.append(True)
+    return {"op": "validate", "args": {"schema": root, "docs": docs, "base": BASE, "loader": True, "insts": insts},
+            "meta": {"expect": expv if resolvable else None, "resources": k + 1, "multi_name": names, "path": path, "remote": sorted(remote)}}
+
+
 def gen(rng, tier, n):
     ops = [o for o in suite.suite_ops("draft2020-12") if "dynamicRef" in o["meta"]["suite"] or "dynamic" in o["meta"]["suite"]]
     while len(ops) < n:
         r = rng.random()
+        if r >= 0.92:
+            ops.append(multi_name(rng))
+            continue
         o = chain(rng) if r < 0.42 else fork(rng) if r < 0.55 else override_case(rng) if r < 0.62 else dag(rng) if r < 0.7 else topo(rng)
         if rng.random() < 0.12:
             o = respell(rng, o)
